@@ -151,6 +151,9 @@ def build(X):
 CASES = [
     ("from [{a = 1, b = 2}, {b = 3, a = 4}]\nsort a\n", [(1, 2), (4, 3)]),
     ("from [{a = 1, b = 'x'}, {a = 2, b = 'y'}]\nsort a\n", [(1, "x"), (2, "y")]),
+    # the frame of a relation literal is that of its FIRST row, in the order written there; the `columns` list of from_text format:json is kept in its order (round-7 seeds C05-14, C05-15)
+    ("from [{id = 1, amount = 250, city = 'Oslo'}, {amount = 75, city = 'Rome', id = 2}]\nsort id\n", [(1, 250, "Oslo"), (2, 75, "Rome")]),
+    ("from_text format:json '{\"columns\": [\"id\", \"amount\", \"city\"], \"data\": [[1, 250, \"Oslo\"], [2, 75, \"Rome\"]]}'\nfilter amount > 100\n", [(1, 250, "Oslo")]),
     ("from [{a = 1, b = 2}, {a = 3}]\n", None),
     ("from [{a = 1, b = 2}, {a = 3, c = 4}]\n", None),
     ("from [{a = 1}, 2]\n", None),
